@@ -224,7 +224,7 @@ pub fn gen_value(t: &mut Tape, fam: Fam) -> GenValue {
         }
         Origin => {
             let cat = *t.pick(&["", "upstream, ", "backport, ", "vendor, ", "other, "]);
-            let o = *t.pick(&["commit:abc123", "https://example.com/patch", "http://sourceware.org/git/?p=glibc.git;a=commitdiff;h=bdb56bac"]);
+            let o = *t.pick(&["commit:abc123", "https://example.com/patch", "http://sourceware.org/git/?p=glibc.git;a=commitdiff;h=bdb56bac", "Debian, based on upstream work, see list", "commit:abc, def"]);
             single(format!("{}{}", cat, o))
         }
         Forwarded => single(t.pick(&["no", "not-needed", "https://example.com/pr/1", "yes"]).to_string()),
